@@ -134,3 +134,34 @@ Example ex_stream : kind_of ex_evs 2 = true /\
   call_trace 2 (snd (run (init ex_cfg 0) ex_evs))
   = [OMsg 2 0 3 None; OMsg 2 0 4 (Some (mkResp 0 0 9)); ORet 2 0].
 Proof. split; vm_compute; reflexivity. Qed.
+
+(* ---- the monitor's stream checks (e_stream) on the model's own traces ----
+   hypotheses on histories (boolean checker below): worker-supplied responses carry a non-zero tag, operator kill
+   codes are CANCELLED, RESOURCE_EXHAUSTED or ABORTED *)
+Theorem causes_okb_sound : forall evs, causes_okb evs = true -> causes_ok evs.
+Proof. exact causes_okb_sound. Qed.
+Print Assumptions causes_okb_sound.
+Example generated_history_causes_ok : causes_ok gen_evs.
+Proof. apply causes_okb_sound. vm_compute. reflexivity. Qed.
+
+(* the response of a completed task is made by the scheduler with a stated cause of the allowed list, or was
+   supplied by a worker for the digest of the task (Sp: the responses supplied so far) *)
+Theorem responses_have_a_cause : forall Sp s eh,
+  ev_resp_ok (fst eh) = true -> KC s -> W s -> RC Sp s -> RC (ev_supplied (fst eh) ++ Sp) (fst (step s eh)).
+Proof. exact RC_step. Qed.
+Print Assumptions responses_have_a_cause.
+
+(* what one event shows a stream call, and where it leaves it *)
+Theorem stream_step_spec : forall c p0 tr0 e s,
+  ev_call e = c -> J c true p0 tr0 -> At c p0 [] s ->
+  (is_start e = true -> p0 = None /\ stream_start e = true) ->
+  PostS c e p0 (step_core e s).
+Proof. exact stream_step_spec. Qed.
+Print Assumptions stream_step_spec.
+
+(* position 3 of p_components: every message and every return of the model's trace passes c02_obs *)
+Theorem monitor_stream_on_model : forall cfg t0 evs,
+  selectors_in_range (init cfg t0) evs -> fresh_calls [] evs -> bg_scripts_ok evs -> causes_ok evs ->
+  panicked (snd (run (init cfg t0) evs)) \/ trace_sub [3%nat] cfg t0 (model_trace cfg t0 evs) = true.
+Proof. exact monitor_stream_on_model. Qed.
+Print Assumptions monitor_stream_on_model.
